@@ -223,14 +223,19 @@ pub fn check(m: &Model, praw: &str, o: &EntOpts, items: &[Result<EntryView, Stri
     }
     // with followed links the same directory is reachable by several routes and "the parent" /
     // "the siblings" of an item are no longer well defined by its path: multiset only
-    if o.follow && m.t.nodes.values().any(|n| n.kind == crate::tree::Kind::Link) {
+    let multi_route = o.follow && m.t.nodes.values().any(|n| n.kind == crate::tree::Kind::Link);
+    // siblings are still well defined when every yielded item has its own location
+    let mut locs: Vec<&str> = oks.iter().map(|e| location(e)).collect();
+    locs.sort();
+    let unique_locations = locs.windows(2).all(|w| w[0] != w[1]);
+    if multi_route && !unique_locations {
         return Ok(());
     }
     // parents before contents (after with contents_first); a followed link carries its target's
     // path, so with followed links among the items "the entry at the parent path" is ambiguous
     let followed_present = oks.iter().any(|e| e.link && e.following);
     for (i, e) in oks.iter().enumerate() {
-        if followed_present {
+        if followed_present || multi_route {
             break;
         }
         if let Some(par) = parent(location(e)) {
